@@ -21,6 +21,8 @@ func main() {
 	switch os.Args[1] {
 	case "pointer":
 		cmdPointer(os.Args[2:])
+	case "cred":
+		cmdCred(os.Args[2:])
 	case "tq":
 		cmdTQ(os.Args[2:])
 	default:
